@@ -70,7 +70,7 @@ def _gen_one(rng, seed):
         "runs": rng.choice([8, 12, 20]),
         "policies": rng.choice([["mixed"], ["coverage", "adversarial", "uniform"], ["coverage"], ["adversarial", "coverage"]]),
         "seed": seed,
-        "style": rng.choice(["frac", "frac", "decimal"]),
+        "style": rng.choice(["frac", "frac", "decimal", "minimal"]),
         "explicit_last": rng.random() < 0.5,
     }
 
